@@ -475,9 +475,29 @@ def gen_module(rng, idx, sizes, for_verify=False, prefix="_c12_"):
                 typedefs=[gen_typedef(rng, "t%s_%d" % (tag, i), for_verify) for i in range(nt)])
 
 
+def gen_category_module(rng, idx):
+    """one struct whose cdef declares a field with a type of another category (integer / float / pointer /
+    aggregate) than the C source: reported by the C compiler on the generated _cffi_checkfld_ function
+    (VerificationError from ffi.compile) or, where gcc only warns, left to the run-time checks"""
+    m = gen_module(rng, idx, (0, 0, 1, 0, 0, 0))
+    st = m["structs"][0]
+    st["dfields"] = [list(f) for f in st["cfields"]]
+    st["packed"] = st["cpacked"] = False
+    movable = [i for i, f in enumerate(st["dfields"]) if f[2] != "[]"]
+    i = rng.choice(movable)
+    cat = W.category(st["dfields"][i][1])
+    pools = {"int": INTS, "float": list(W.FLOAT_TYPES), "ptr": W.PTR_TYPES, "agg": sorted(W.NESTED)}
+    st["dfields"][i][1] = rng.choice(pools[rng.choice([c for c in pools if c != cat])])
+    st["mut"] = "category"
+    m["ctmut"] = True
+    return m
+
+
 def generate(ctx):
-    n = ctx.n(8, 150)
-    return [gen_module(ctx.rng, i, (16, 4, 14, 3, 3, 2)) for i in range(n)]
+    n = ctx.n(12, 150)
+    cases = [gen_module(ctx.rng, i, (16, 4, 14, 3, 3, 2)) for i in range(n)]
+    cases += [gen_category_module(ctx.rng, n + i) for i in range(ctx.n(3, 30))]
+    return cases
 
 
 # =============================================================================== evaluation
@@ -569,9 +589,20 @@ def evaluate(ctx, cases):
         if "harness_error" in r:
             ctx.obligation_broken("C12 harness on module %s" % m["name"], r["harness_error"])
             continue
+        if "crash" in r:
+            if "did not finish" in r["crash"]:
+                ctx.obligation_broken("C12 harness on module %s" % m["name"], r["crash"])
+            else:
+                ctx.violation(m, "building/probing the module ends the Python process: " + r["crash"])
+            continue
         if "build_error" in r and r["build_error"] == "VerificationError" and any(const_key(k) for k in m["consts"]):
             # a cdef constant that is not a C literal may also be refused when the module is built
             ctx.count(len(m["consts"]))
+            continue
+        if "build_error" in r and r["build_error"] == "VerificationError" and m.get("ctmut"):
+            ctx.count()             # the C compiler refused the mismatching field type
+            ctx.hist("struct", "category/compile-error")
+            ctx.nontrivial(("category", m["structs"][0]["cfields"], m["structs"][0]["dfields"]))
             continue
         if "build_error" in r:
             ctx.violation(m, "API module for a valid (cdef, C source) pair does not build: %s: %s"
